@@ -165,6 +165,7 @@ func RunCase(spec CaseSpec) (res CaseResult) {
 	c.Monitors = append(c.Monitors, g)
 	for _, f := range prof.Fragments {
 		g.QueueFragment(f)
+		st.Bucket("fragment|%s", f)
 	}
 	defer func() {
 		if rec := recover(); rec != nil {
